@@ -44,6 +44,11 @@ pub enum Entry15
     {
         dir: usize,
     },
+    /// an in-scope file that has a second hard link outside the source dir
+    HardLinked
+    {
+        dir: usize,
+    },
 }
 
 #[derive(Clone, Debug, PartialEq, Eq, Hash, Serialize, Deserialize)]
@@ -61,6 +66,9 @@ pub struct C15Case
     /// configuration file in proj/conf/ (source_dir then goes through "..")
     #[serde(default)]
     pub config_in_subdir: bool,
+    /// TMPDIR really on another filesystem: no file can be updated, but nothing out of scope may change either
+    #[serde(default)]
+    pub cross_fs_tmp: bool,
 }
 
 pub fn strategy() -> BoxedStrategy<C15Case>
@@ -71,6 +79,7 @@ pub fn strategy() -> BoxedStrategy<C15Case>
         1 => (0..DIRS.len(), 0..NAMES.len()).prop_map(|(dir, name)| Entry15::LinkToFileOutside { dir, name }),
         1 => (0..DIRS.len()).prop_map(|dir| Entry15::LinkToDirInside { dir }),
         1 => (0..DIRS.len()).prop_map(|dir| Entry15::LinkToDirOutside { dir }),
+        1 => (0..DIRS.len()).prop_map(|dir| Entry15::HardLinked { dir }),
     ];
     let exts = prop_oneof![
         3 => Just(None),
@@ -79,9 +88,11 @@ pub fn strategy() -> BoxedStrategy<C15Case>
         1 => Just(Some(vec!["RS".to_string()])),
         1 => Just(Some(vec!["txt".to_string()])),
         1 => Just(Some(vec!["rsx".to_string()])),
+        1 => Just(Some(vec!["rs".to_string(), String::new()])),
+        1 => Just(Some(vec![String::new()])),
     ];
-    (vec(e, 1..14), exts, 0u8..7, 0u8..3, any::<bool>(), any::<bool>(), any::<bool>(), prop_oneof![3 => Just(false), 1 => Just(true)])
-        .prop_map(|(entries, extensions, source_dir_form, cwd_form, config_abs, check_mode, structured, config_in_subdir)| C15Case {
+    (vec(e, 1..14), exts, 0u8..7, 0u8..3, any::<bool>(), any::<bool>(), any::<bool>(), prop_oneof![3 => Just(false), 1 => Just(true)], prop_oneof![7 => Just(false), 1 => Just(true)])
+        .prop_map(|(entries, extensions, source_dir_form, cwd_form, config_abs, check_mode, structured, config_in_subdir, cross_fs_tmp)| C15Case {
             entries,
             extensions,
             source_dir_form,
@@ -90,6 +101,7 @@ pub fn strategy() -> BoxedStrategy<C15Case>
             check_mode,
             structured,
             config_in_subdir,
+            cross_fs_tmp,
         })
         .boxed()
 }
@@ -209,6 +221,24 @@ pub fn check(case: &C15Case) -> CaseOutcome
                     links += 1;
                 }
             },
+            Entry15::HardLinked { dir } =>
+            {
+                let d = DIRS[*dir % DIRS.len()];
+                let rel = if d.is_empty() { format!("{}/hardlinked.rs", src_rel) } else { format!("{}/{}/hardlinked.rs", src_rel, d) };
+                if put(&rel, &mut all_files)
+                {
+                    let partner = format!("elsewhere/partner_of_{}.txt", all_files.len());
+                    if std::fs::hard_link(proj.join(&rel), proj.join(&partner)).is_ok()
+                    {
+                        all_files.push(partner);
+                        links += 1;
+                    }
+                    if in_scope_name("hardlinked.rs", &exts)
+                    {
+                        expected.insert(rel.clone());
+                    }
+                }
+            },
             Entry15::LinkToDirInside { dir } | Entry15::LinkToDirOutside { dir } =>
             {
                 let d = DIRS[*dir % DIRS.len()];
@@ -285,12 +315,27 @@ pub fn check(case: &C15Case) -> CaseOutcome
             _ => format!("../proj/{}Breadlog.yaml", sub),
         }
     };
+    let cross_tmp = if case.cross_fs_tmp && !case.check_mode
+    {
+        let base = build_dir().join("work");
+        let _ = std::fs::create_dir_all(&base);
+        o.class("cross-filesystem-tmpdir");
+        Some(Sandbox::new_in(&base))
+    }
+    else
+    {
+        None
+    };
     let before = snapshot(&sb.root);
     let run = run_breadlog(&RunSpec {
         check: case.check_mode,
         cwd: cwd.clone(),
         config_arg,
-        tmpdir: sb.tmp(),
+        tmpdir: match &cross_tmp
+        {
+            Some(c) => c.root.clone(),
+            None => sb.tmp(),
+        },
         plan: None,
         trace: false,
         roots: vec![],
@@ -366,7 +411,15 @@ pub fn check(case: &C15Case) -> CaseOutcome
             let rel = k.strip_prefix("proj/").unwrap_or("").to_string();
             let want_edit = k.starts_with("proj/") && expected.contains(&rel);
             let (a, b) = (ea.content.as_ref().unwrap(), eb.content.as_ref().unwrap());
-            if want_edit
+            if want_edit && cross_tmp.is_some()
+            {
+                // every rename fails (EXDEV): the file may stay as it is, but it must not be damaged
+                if a != b && decompose(a, b).is_err()
+                {
+                    o.fail("not-insertion-only", format!("{}: changed in a way that is not an insertion", k));
+                }
+            }
+            else if want_edit
             {
                 match decompose(a, b)
                 {
@@ -387,7 +440,7 @@ pub fn check(case: &C15Case) -> CaseOutcome
                 o.fail("unexpected-entry-created", format!("{} was created", k));
             }
         }
-        if !expected.is_empty()
+        if !expected.is_empty() && cross_tmp.is_none()
         {
             if !after.contains_key(lock_rel)
             {
@@ -398,7 +451,7 @@ pub fn check(case: &C15Case) -> CaseOutcome
                 o.fail("edit-failed", format!("edit failed ({}):\n{}", run.exit.describe(), run.output_tail()));
             }
         }
-        else if run.exit.success()
+        else if run.exit.success() && expected.is_empty()
         {
             o.fail("no-files-but-success", "no file is in scope, yet the edit run exited 0".to_string());
         }
@@ -429,7 +482,7 @@ pub fn run(env: &Env, rec: &Recorder) -> (String, Vec<&'static str>)
 {
     pbt(env, rec, "layouts", env.cases(4000, 60_000), &strategy, &check);
     (
-        "directory layouts: up to 13 entries over 8 directory shapes (nesting <= 4, a directory named x.rs, names with spaces) x 20 file names (look-alike extensions .RS .rsx .rs.bak .rs~ .Rs 'rs' none, hidden, unicode, double extensions), symlinks to files and directories inside and outside the source dir, canary files outside the source dir and in a decoy src/ under the invocation directory; extension lists omitted/[rs]/[rs,rsx]/[RS]/[txt]/[rsx]; source_dir as src, ./src, sub/../src, src/, ./src/., absolute, or `proj/src` below a configuration directory itself named `proj` (with a decoy src/ that a cwd-relative resolution would hit); configuration file in the project root or in a sub-directory (source_dir then contains `..`, with a look-alike src/ next to the configuration); invocation from the project dir, its parent, an unrelated dir; config path relative or absolute; both modes, both styles. Every regular file holds one statement lacking a reference. Oracle: independent scope rule; edit modifies exactly the in-scope set (one insertion each), everything else byte-identical, symlinks unchanged, Breadlog.lock only next to the config; --check scans and reports exactly the in-scope set. Non-trivial = distinct layout with a look-alike or symlink and an in-scope file at depth >= 2, or invoked from another directory".to_string(),
+        "directory layouts: up to 13 entries over 8 directory shapes (nesting <= 4, a directory named x.rs, names with spaces) x 20 file names (look-alike extensions .RS .rsx .rs.bak .rs~ .Rs 'rs' none, hidden, unicode, double extensions), symlinks to files and directories inside and outside the source dir, in-scope files with a second hard link outside the source dir, canary files outside the source dir and in a decoy src/ under the invocation directory; extension lists omitted/[rs]/[rs,rsx]/[RS]/[txt]/[rsx]/[rs, empty string]/[empty string]; one edit run in eight with TMPDIR really on another filesystem (then only 'nothing out of scope changes' is judged); source_dir as src, ./src, sub/../src, src/, ./src/., absolute, or `proj/src` below a configuration directory itself named `proj` (with a decoy src/ that a cwd-relative resolution would hit); configuration file in the project root or in a sub-directory (source_dir then contains `..`, with a look-alike src/ next to the configuration); invocation from the project dir, its parent, an unrelated dir; config path relative or absolute; both modes, both styles. Every regular file holds one statement lacking a reference. Oracle: independent scope rule; edit modifies exactly the in-scope set (one insertion each), everything else byte-identical, symlinks unchanged, Breadlog.lock only next to the config; --check scans and reports exactly the in-scope set. Non-trivial = distinct layout with a look-alike or symlink and an in-scope file at depth >= 2, or invoked from another directory".to_string(),
         vec!["the source dir itself being a symlink, non-UTF-8 file names and a file literally named .rs are not generated (the statement does not settle them)"],
     )
 }
